@@ -261,6 +261,8 @@ type listCase struct {
 	Replicas int       `json:"replicas"`
 	Others   int       `json:"others"`  // further StatefulSets selected by the same selector
 	Rolling  bool      `json:"rolling"` // one of them is mid rolling update
+	// RollBack: that roll-out is being undone (update revision == current revision again, updatedReplicas < replicas)
+	RollBack bool `json:"rollBack,omitempty"`
 }
 
 func runList(c *listCase) []vkit.Violation {
@@ -274,7 +276,12 @@ func runList(c *listCase) []vkit.Violation {
 		if c.Rolling && i == 0 {
 			upd = 1
 		}
-		objs = append(objs, mkSts(fmt.Sprintf("zrep%d", i), 2, nil, fmt.Sprintf("zrep%d", i), upd))
+		set := mkSts(fmt.Sprintf("zrep%d", i), 2, nil, fmt.Sprintf("zrep%d", i), upd)
+		set.Status.CurrentRevision, set.Status.UpdateRevision = set.Name+"-7d9f", set.Name+"-7d9f"
+		if upd == 1 && !c.RollBack {
+			set.Status.UpdateRevision = set.Name + "-5c4b"
+		}
+		objs = append(objs, set)
 	}
 	cli := fake.NewSimpleClientset(objs...)
 	mkPod := func(sts string, ord int, ip string) corev1.Pod {
@@ -400,6 +407,7 @@ func TestC18List(t *testing.T) {
 		}
 		c.Others = rapid.IntRange(0, 2).Draw(t, "others")
 		c.Rolling = rapid.Bool().Draw(t, "rolling")
+		c.RollBack = c.Rolling && rapid.IntRange(0, 2).Draw(t, "rollBack") == 0
 		vs := rec.Filter(runList(c))
 		b, _ := json.Marshal(c)
 		cls := []string{"list", "list-order/" + orderKind}
